@@ -25,7 +25,6 @@ Qed.
 Section Node.
 Variables (C : circuit) (n : nat) (t : nat).
 Hypothesis HQ : WFQ C n.
-Hypothesis Hdup : nodup_children C = true.
 Let d := build C n.
 
 Variable ord_int : nat -> nat -> nat -> list cfg -> list cfg.
@@ -47,12 +46,6 @@ Definition NodeInv (i : nat) (res : sres) : Prop :=
     0 < cnt C i /\ (exists v, In v (V i)) /\ s_iter sm <> [] /\ SampOK i (V i) sm /\
     CovAll i (V i) (Nat.min t (length (s_vars sm))) sm
   end.
-
-Lemma children_nodup i : (i < length C)%nat -> NoDup (children (nth i C FalseN)).
-Proof.
-  intros Hi. unfold nodup_children in Hdup. rewrite forallb_forall in Hdup.
-  apply nodup_nat_spec. apply Hdup. now apply nth_In.
-Qed.
 
 Lemma cnt_nonneg i : (i < length C)%nat -> 0 <= cnt C i.
 Proof. intros Hi. rewrite cnt_cA. apply (cA_bounds C n HQ [] i Hi). Qed.
@@ -146,8 +139,9 @@ Proof.
       - intros x Hx. apply in_map_iff in Hx. destruct Hx as [c [<- Hc]].
         clear - HF' Hc. induction HF' as [|c0 r cs rs [Hp _] HF IH]; [destruct Hc|].
         destruct Hc as [<-|Hc]; [exact Hp|now apply IH]. }
-    assert (Hcsnd : NoDup cs).
-    { pose proof (children_nodup i Hi) as H. now rewrite E in H. }
+    assert (Hcsnd : pairwise disjointb (map (fun c0 => nth c0 (varss C) []) cs) = true).
+    { pose proof (wf_dec C n (wfq_wf C n HQ)) as Hdec. unfold decomposable in Hdec. rewrite forallb_forall in Hdec.
+      specialize (Hdec _ (node_in C i Hi)). now rewrite E in Hdec. }
     (* the samples of the children are good for merging at i *)
     assert (Hgood : Forall (GoodS C n t i cs) (samples_of rs) /\ NoDup (flat_map s_vars (samples_of rs)) /\
                     (forall v, In v (flat_map s_vars (samples_of rs)) <-> In v (V i)) /\
@@ -159,14 +153,15 @@ Proof.
       assert (Hgen : forall cs0 rs0, Forall2 (fun c r => 0 < cnt C c /\ match r with
                                        | WithSample sm => NodeInv c (WithSample sm)
                                        | _ => forall v, ~ In v (V c)
-                                       end) cs0 rs0 -> incl cs0 cs -> NoDup cs0 ->
+                                       end) cs0 rs0 -> incl cs0 cs -> pairwise disjointb (map (fun c0 => nth c0 (varss C) []) cs0) = true ->
                 Forall (GoodS C n t i cs) (samples_of rs0) /\ NoDup (flat_map s_vars (samples_of rs0)) /\
                 (forall v, In v (flat_map s_vars (samples_of rs0)) <-> exists c, In c cs0 /\ In v (V c)) /\
                 (samples_of rs0 <> [] -> exists c v, In c cs0 /\ In v (V c))).
       { induction 1 as [|c r cs0 rs0 [Hcp Hcr] HF0 IH]; intros Hinc Hnd0.
         - cbn. split; [constructor|]. split; [constructor|]. split; [|congruence].
           intros v. split; [intros []|intros [c [[] _]]].
-        - inversion Hnd0 as [|? ? Hnotin Hnd1]; subst.
+        - cbn [map pairwise] in Hnd0. apply andb_true_iff in Hnd0. destruct Hnd0 as [Hnotin Hnd1].
+          rewrite forallb_forall in Hnotin.
           destruct (IH (fun x Hx => Hinc x (or_intror Hx)) Hnd1) as [G1 [G2 [G3 G4]]].
           assert (Hc : In c cs) by (apply Hinc; now left).
           destruct r as [| |S]; cbn [samples_of flat_map app] in *.
@@ -195,8 +190,8 @@ Proof.
               -- intros v Hv. apply Hvs in Hv. exact (and_vars C n HQ i cs c Hi E Hc v Hv).
             * apply NoDup_app_intro; [apply HS|exact G2|].
               intros v Hv Hv'. apply Hvs in Hv. apply G3 in Hv'. destruct Hv' as [c0 [Hc0 Hv0']].
-              assert (Hne0 : c <> c0) by (intros ->; contradiction).
-              exact (decomp_disjoint C n HQ i cs c c0 Hi E Hc (Hinc c0 (or_intror Hc0)) Hne0 v Hv Hv0').
+              assert (Hd0 : disjointb (nth c (varss C) []) (nth c0 (varss C) []) = true) by (apply Hnotin; exact (in_map (fun c1 => nth c1 (varss C) []) cs0 c0 Hc0)).
+              exact (proj1 (disjointb_spec _ _) Hd0 v Hv Hv0').
             * intros v. rewrite in_app_iff, G3, Hvs. split.
               -- intros [H|[c0 [H1 H2]]]; [exists c; split; [now left|exact H]|exists c0; split; [now right|exact H2]].
               -- intros [c0 [[<-|H1] H2]]; [now left|right; now exists c0].
